@@ -48,6 +48,18 @@ CHECKS = {
  "C08": ("relational monitor across child processes: one call history replayed under 14 cache configurations / call orders, per-call comparison with an always-miss (history-free) baseline",
          "The same seeded history of ValidateStruct / StructForFn / Struct calls (types with independent rule sets under three tag names; A-then-B, A-B-A, override-then-plain patterns; sweeps over 620 one-off types that overflow a 512-entry cache) is executed in child processes that differ only in the cache installed through SetStructTypeCache (default, LRU of capacity 512/0/1/2/3/8, sync.Map, always-miss, amnesiac) or in call order (reversed, doubled). Every call must return the same clause list in every child. Instrumented caches report hits, misses, evictions and re-analyses actually observed.",
          "Clauses compared as sorted lists; no Go maps inside values; the reference validator is only used to say which side is wrong in a witness.", "§3 C08"),
+ "C04": ("reference-model monitor: independent recursive descent vs the library on random acyclic object graphs with decoy sub-objects",
+         "Random object graphs of a recursive family of named types (depth 0-5, every container form, nil / zero / populated nodes, nil elements) and of run-time synthesised struct types (nesting depth <= 4) are validated through value, pointer, pointer-to-pointer, slice, array and map top-level inputs. The (path, rule instance) pairs of the returned error must equal the reference validator's descent (descend iff required-and-non-empty or exist-and-non-zero; Parent.Field, [i], [key] naming). Independently of the reference, no clause may ever name one of the decoy sub-objects placed on unmarked, unexported and time.Time fields.",
+         "Acyclic graphs only; Go map entries compared as multisets; the reference validator's reading of the path naming rule is calibrated on the repository's own expected outputs.", "§3 C04"),
+ "C16": ("reference-model monitor: rule-source and function-resolution markers compared with an independent selection model",
+         "Object graphs of three named types that share field names (the outermost type also occurs nested) are validated with every layout of supplied rule sets (unscoped, scoped to inner / outer / several types, empty scoped set) through all seven public routes; rule names resolve to per-call, global (some replacing built-ins) and built-in functions in every collision class and to unknown names. Every rule source and every function registration writes a distinct marker, so the returned (path, marker) sequence shows which source judged each field; it must equal the reference model's selection (supplied replaces tag per field, scoped set applies to its type everywhere, unscoped to the outermost struct only, per-call > global > built-in, unknown name = one clause and the other rules still run).",
+         "Combinations the documentation does not order (non-empty scoped-outer set together with an unscoped set; unscoped set with top-level slice/map input) are not generated.", "§3 C16"),
+ "C17": ("reference-model monitor: per-object group evaluation vs the library, with different value patterns in different elements",
+         "Struct types with 1-3 either/botheq groups (members of several kinds, singleton groups, messages on the group rule) are validated alone, as elements of slices, arrays and maps, nested under exist/required fields and as top-level collections, with different emptiness / equality patterns in different elements so that merging groups across objects changes the verdict; the same groups through Map, []map and Url. Group clauses (kind, member list) and singleton rule-writing clauses must equal the reference's per-object all-empty / all-equal evaluation.",
+         "Member keys are always present for map/URL inputs; member order inside a clause is unspecified for Go maps.", "§3 C17"),
+ "C18": ("relational monitor: marker sets of one (value, rule list) compared across ten carriers",
+         "One scalar value under 1-4 rules supported by all inputs (unique message per rule instance) is presented as struct field (tag and RM), Var, map[string]T, map[string]interface{}, []map and, for strings, Url in raw, percent-encoded (among decoys, first/middle/last) and whole-URL-encoded form, with values containing & = + % ? # space and CJK. The set of reported rule instances must be identical for every carrier; any carrier-specific extra clause is a violation too.",
+         "No model decides the verdict (the reference validator only names the odd one out); map[string]interface{} carriers have an open known finding.", "§3 C18"),
 }
 
 NOT_YET = "monitor not built yet in this round (planned, see DESIGN.md §3)"
